@@ -23,28 +23,37 @@ def CommonField (f : AField) : Prop :=
    | some (.enum e _) => e.description.getD "" = f.description.getD ""   -- the DSL has no separate enum docs
    | none => True)
 
-def CommonReset (r : Option ResetValue) : Prop :=
+/-- The integers a syntax can write down as a reset value: TOML integers are i64; JSON numbers are read
+    as u64; YAML integers are i64 but a `0b…` string is converted with `u64::from_str_radix`; the DSL
+    reads a u128 (the manifest lowering is never run with `.dsl`; its bound there is the strictest one). -/
+def resetBound : Syntax → Nat
+  | .toml => 2 ^ 63
+  | .json => 2 ^ 64
+  | .yaml => 2 ^ 64
+  | .dsl => 2 ^ 63
+
+def CommonReset (syn : Syntax) (r : Option ResetValue) : Prop :=
   match r with
-  | some (.int n) => n < 2 ^ 63        -- YAML / TOML integers are i64 (JSON: u64, the DSL: u128)
+  | some (.int n) => n < resetBound syn
   | _ => True
 
-def CommonOverride (ov : AOverride) : Prop :=
-  ov.illegal = [] ∧ (ov.kind = "block" ∨ ov.kind = "register" ∨ ov.kind = "command") ∧ CommonReset ov.reset
+def CommonOverride (syn : Syntax) (ov : AOverride) : Prop :=
+  ov.illegal = [] ∧ (ov.kind = "block" ∨ ov.kind = "register" ∨ ov.kind = "command") ∧ CommonReset syn ov.reset
 
 mutual
-def CommonObj : AObj → Prop
-  | .block _ _ _ os => CommonObjs os
-  | .register _ _ _ _ _ _ reset _ _ _ fields => CommonReset reset ∧ ∀ f ∈ fields, CommonField f
+def CommonObj (syn : Syntax) : AObj → Prop
+  | .block _ _ _ os => CommonObjs syn os
+  | .register _ _ _ _ _ _ reset _ _ _ fields => CommonReset syn reset ∧ ∀ f ∈ fields, CommonField f
   | .command _ basic _ bo bito si so rep abo aao fin fout =>
     -- the basic form `command Foo = 5` denotes the extended form with nothing set
     (basic = true → bo = none ∧ bito = none ∧ si = none ∧ so = none ∧ rep = none ∧ abo = none ∧
       aao = none ∧ fin = none ∧ fout = none) ∧
     (∀ f ∈ fin.getD [], CommonField f) ∧ (∀ f ∈ fout.getD [], CommonField f)
   | .buffer _ _ _ => True
-  | .ref _ _ ov => CommonOverride ov
-def CommonObjs : List AObj → Prop
+  | .ref _ _ ov => CommonOverride syn ov
+def CommonObjs (syn : Syntax) : List AObj → Prop
   | [] => True
-  | o :: os => CommonObj o ∧ CommonObjs os
+  | o :: os => CommonObj syn o ∧ CommonObjs syn os
 end
 
 theorem mapM_congr_mem {α β : Type} (f g : α → M β) : ∀ (l : List α), (∀ x ∈ l, f x = g x) → l.mapM f = l.mapM g
@@ -76,7 +85,7 @@ theorem field_agree (g : GlobalConfig) (f : AField) (h : CommonField f) : dslFie
       | ty p t => simp only [hc] at h2; simp [hc, h2]
       | «enum» e t => simp only [hc] at h2; simp [hc, h2]
 
-theorem reset_agree (syn : Syntax) (r : Option ResetValue) (h : CommonReset r) : dslReset r = manReset syn r := by
+theorem reset_agree (syn : Syntax) (r : Option ResetValue) (h : CommonReset syn r) : dslReset r = manReset syn r := by
   unfold dslReset manReset manUintOk
   cases r with
   | none => rfl
@@ -84,13 +93,26 @@ theorem reset_agree (syn : Syntax) (r : Option ResetValue) (h : CommonReset r) :
     cases rv with
     | int n =>
       simp only [CommonReset] at h
-      have h1 : n < 2 ^ 128 := by omega
-      have h2 : n < 18446744073709551616 := by omega
-      have h3 : n < 9223372036854775808 := by omega
-      cases syn <;> simp [h1, fitsU64, h2, h3]
+      cases syn with
+      | dsl =>
+        have h3 : n < 9223372036854775808 := h
+        have h1 : n < 2 ^ 128 := by omega
+        simp [h1, h3]
+      | json =>
+        have h2 : n < 18446744073709551616 := h
+        have h1 : n < 2 ^ 128 := by omega
+        simp [h1, fitsU64, h2]
+      | yaml =>
+        have h2 : n < 18446744073709551616 := h
+        have h1 : n < 2 ^ 128 := by omega
+        simp [h1, fitsU64, h2]
+      | toml =>
+        have h3 : n < 9223372036854775808 := h
+        have h1 : n < 2 ^ 128 := by omega
+        simp [h1, h3]
     | array a => rfl
 
-theorem override_agree (syn : Syntax) (target : String) (ov : AOverride) (h : CommonOverride ov) :
+theorem override_agree (syn : Syntax) (target : String) (ov : AOverride) (h : CommonOverride syn ov) :
     dslOverride target ov = manOverride syn target ov := by
   unfold dslOverride manOverride
   obtain ⟨h1, h2, h3⟩ := h
@@ -98,7 +120,7 @@ theorem override_agree (syn : Syntax) (target : String) (ov : AOverride) (h : Co
   rcases h2 with hk | hk | hk <;> simp [hk, reset_agree syn ov.reset h3]
 
 mutual
-theorem obj_agree (syn : Syntax) (g : GlobalConfig) : ∀ (o : AObj), CommonObj o → dslObj g o = manObj syn g o
+theorem obj_agree (syn : Syntax) (g : GlobalConfig) : ∀ (o : AObj), CommonObj syn o → dslObj g o = manObj syn g o
   | .block c off rep os, h => by
     unfold dslObj manObj
     unfold CommonObj at h
@@ -124,7 +146,7 @@ theorem obj_agree (syn : Syntax) (g : GlobalConfig) : ∀ (o : AObj), CommonObj 
     unfold dslObj manObj
     unfold CommonObj at h
     rw [override_agree syn target ov h]
-theorem objs_agree (syn : Syntax) (g : GlobalConfig) : ∀ (os : List AObj), CommonObjs os → dslObjs g os = manObjs syn g os
+theorem objs_agree (syn : Syntax) (g : GlobalConfig) : ∀ (os : List AObj), CommonObjs syn os → dslObjs g os = manObjs syn g os
   | [], _ => by unfold dslObjs manObjs; rfl
   | o :: os, h => by
     unfold dslObjs manObjs
@@ -134,12 +156,12 @@ end
 
 /-- **C16.** On every definition of the common fragment the DSL lowering and the manifest lowering
     agree — same MIR or same rejection, with every global-config default applied the same way. -/
-theorem front_ends_agree (syn : Syntax) (d : ADef) (h : CommonObjs d.objects) :
+theorem front_ends_agree (syn : Syntax) (d : ADef) (h : CommonObjs syn d.objects) :
     lowerDsl d = lowerManifest syn d := by
   simp only [lowerDsl, lowerManifest, objs_agree syn _ d.objects h]
 
 /-- … hence the same driver and the same accept/reject decision from all four syntaxes. -/
-theorem same_driver (n : Names) (name : String) (d : ADef) (h : CommonObjs d.objects) (s : Syntax) :
+theorem same_driver (n : Names) (name : String) (d : ADef) (s : Syntax) (h : CommonObjs s d.objects) :
     generate n s name d = generate n .dsl name d := by
   unfold generate lowerFront
   cases s <;> simp only [← front_ends_agree _ d h]
